@@ -74,6 +74,10 @@ class _World:
 
             async def __aexit__(self, et, ev, tb):
                 self.held = False
+                # a hand-off lock: after releasing it yields to the loop so that a waiter can run at once; whatever the
+                # library does after `__aexit__` released the lock is no longer protected by it
+                for j in range(case.get("handoff", 0)):
+                    await Susp(["unlock", world.locks.index(self), j])
                 return False
 
         async def getter(inst):
@@ -237,6 +241,8 @@ def _send(w, task, exc=None):
         return ["blocked"]
     if tok[0] == "g":
         return ["susp", tok[1]]
+    if tok[0] == "unlock":
+        return ["handoff"]           # suspended in the hand-off lock's __aexit__, after it released the lock
     return ["token", tok]
 
 
@@ -419,6 +425,8 @@ def observe(case):
 
 
 def model_request(case):
+    if case.get("handoff"):
+        return None      # the machine's lock releases without suspending: hand-off locks are judged by the oracles alone
     return {"m": "cachedprop", "mode": case["kind"], "lock": case["lock"] == "lock", "susp": case["susp"],
             "ok": case["ok"], "ninst": case.get("ninst", 2), "ops": case["ops"], "drain": case.get("drain", 0)}
 
@@ -656,8 +664,13 @@ def cases(tier, rng):
     # two instances
     yield from _family_insert(3 if quick else 4, 5 if quick else 6, modes, CFGS[:2], [["del", 0], ["del", 1]], "two-instances",
                               ninst=2, count=1)
-    for _ in range(4000 if quick else 150000):
-        yield _random_conc(rng)
+    for k in range(4000 if quick else 150000):
+        c = _random_conc(rng)
+        yield c
+        if k % 5 == 0 and c["lock"] == "lock":
+            # the same schedule under a hand-off lock (its __aexit__ suspends after releasing): oracle-only; no
+            # cancellations (a throw at the unlock suspension is the lock's own business) and a long drain
+            yield dict(c, handoff=1 + k % 2, ops=[op for op in c["ops"] if op[0] != "cancel"], drain=max(c.get("drain", 0), 12))
     for _ in range(1500 if quick else 40000):
         yield _random_seq(rng)
 
